@@ -11,17 +11,26 @@ structure OKey where
   addr : List Nat
   mac : List Nat
   at_ : Nat
+  /-- earliest moment the cache entry behind this mapping can have been created: an answer to a lookup still in
+  progress fills the entry that lookup created, and the entry's age counts from its creation -/
+  at0 : Nat := 0
   /-- how many cache insertions had happened when this one was made (ring overflow evicts after 512 more) -/
   seq : Nat := 0
 deriving Inhabited
 
 /-- learning a mapping: the same link address while the entry is still valid keeps the old expiry -/
-def learnKey (known : List OKey) (nic : Nat) (a mac : List Nat) (now age seq : Nat) : List OKey :=
+def learnKey (known : List OKey) (nic : Nat) (a mac : List Nat) (now age seq : Nat) (early : Nat := now) : List OKey :=
   match known.find? (fun k => k.nic == nic && k.addr == a) with
   | some k =>
     if k.mac == mac && now ≤ k.at_ + age then known
-    else ⟨nic, a, mac, now, seq⟩ :: known.filter (fun k => !(k.nic == nic && k.addr == a))
-  | none => ⟨nic, a, mac, now, seq⟩ :: known
+    else ⟨nic, a, mac, now, early, seq⟩ :: known.filter (fun k => !(k.nic == nic && k.addr == a))
+  | none => ⟨nic, a, mac, now, early, seq⟩ :: known
+
+/-- when the lookup in progress for a key (if any) began -/
+def pendingSince (pending : List (Nat × List Nat × Nat × Nat)) (nic : Nat) (a : List Nat) (now : Nat) : Nat :=
+  match pending.find? (fun (n, x, _, _) => n == nic && x == a) with
+  | some (_, _, t0, _) => min t0 now
+  | none => now
 
 structure OSt where
   now : Nat := 0
@@ -156,7 +165,7 @@ def oracleStep (st : St) (toks : List String) (res : String) : St × String :=
   | ["add", nic, a, mac] =>
     match nic.toNat?, hexN a, hexN mac with
     | some nic, some a, some mac =>
-      ret { o with known := learnKey o.known nic a mac o.now o.age (o.inserts + 1), inserts := o.inserts + 1,
+      ret { o with known := learnKey o.known nic a mac o.now o.age (o.inserts + 1) (pendingSince o.pending nic a o.now), inserts := o.inserts + 1,
                    pending := o.pending.filter fun (n, x, _, _) => !(n == nic && x == a) } "ok"
     | _, _, _ => (st, "bad-op")
   | ["udpw", nic, a, _] =>
@@ -199,7 +208,7 @@ def oracleStep (st : St) (toks : List String) (res : String) : St × String :=
             if some k.mac != m then ret o "bad c12.entry-reported-for-a-different-address-or-stale-link-address"
             else if o.now > k.at_ + o.age + 40 then ret o "bad c12.entry-reported-after-expiry"
             else ret o "ok"
-        else if (match k with | some k => o.now + 40 ≤ k.at_ + o.age && o.inserts < k.seq + 500 | none => false) then
+        else if (match k with | some k => o.now + 40 ≤ k.at0 + o.age && o.inserts < k.seq + 500 | none => false) then
           -- a mapping learned and still valid must be used
           ret o "bad c12.learned-mapping-not-used"
         else if r == "wouldblock" then
@@ -234,7 +243,7 @@ def oracleStep (st : St) (toks : List String) (res : String) : St × String :=
       let expectReply := valid && op == 1 && ours
       -- learning: replies, and requests addressed to us
       let learns := valid && (op == 2 || (op == 1 && ours))
-      let o' := if learns then { o with known := learnKey o.known nic spa sha o.now o.age (o.inserts + 1), inserts := o.inserts + 1,
+      let o' := if learns then { o with known := learnKey o.known nic spa sha o.now o.age (o.inserts + 1) (pendingSince o.pending nic spa o.now), inserts := o.inserts + 1,
                                         pending := o.pending.filter fun (n, x, _, _) => !(n == nic && x == spa) } else o
       if rep == "-" then ret o' (if expectReply then "bad c12.arp-request-for-own-address-not-answered" else "ok")
       else if !expectReply then ret o' "bad c12.arp-answered-for-foreign-target-or-malformed-request"
